@@ -162,8 +162,9 @@ func TestC33(t *testing.T) {
 		extra = map[string]any{
 			"ran": true, "scenario": rep.cfg, "deviations": maxBound + 1,
 			"schedules_at_this_level": len(tasks), "schedules_run": rep.e.schedules.Load() - before,
-			"order":  "pseudo-random permutation of the level (affine map with a stride coprime to its size), cut by the time budget",
-			"wall_s": time.Since(t0).Seconds(), "exhaustive": false,
+			"order":      "pseudo-random permutation of the level (affine map with a stride coprime to its size), cut by the time budget",
+			"wall_s":     time.Since(t0).Seconds(),
+			"exhaustive": int(rep.e.schedules.Load()-before) == len(tasks) && !r.Expired() && !rep.e.abort.Load(),
 		}
 	}
 	for i := 1; i < len(reports); i++ {
